@@ -321,3 +321,120 @@ class MilliToMinute(Job):
 
 
 JOBS["C44"] = [MilliToMinute()]
+
+
+# =====================================================================================================
+# C44: proposer timestamps only move forward (the field store is an environment stub)
+# =====================================================================================================
+import re as _re
+
+from mirsmt.values import EnumV as _EnumV, BoolV as _BoolV, UnitV as _UnitV, RefV as _RefV
+from mirsmt import models as _models
+
+
+class TimestampUpdate(Job):
+    crate = "radix-engine"
+
+    def __init__(self):
+        self.name = "c44m::consensus_manager_check_non_decreasing_and_update_timestamps"
+        self.what = ("ConsensusManagerBlueprint::check_non_decreasing_and_update_timestamps for every stored millisecond / "
+                     "minute timestamp and every proposed time: rejected exactly when the proposed time is below the stored "
+                     "one (or its minute count does not fit i32); otherwise the stored millisecond timestamp becomes the "
+                     "proposed one and the stored minute never decreases (max of the old value and the proposed minute); a "
+                     "rejected time below the stored one writes nothing")
+        self.cover_labels = ["ok forward", "ok same time", "rejected backwards", "minute advanced"]
+
+    @property
+    def env_overrides(self):
+        def ok(ret_ty, v):
+            return _EnumV(ret_ty, 0, {0: [v]})
+
+        def m_into_u8(interp, path, args, ret_ty, callee):
+            return IntV(0, "u8")
+
+        def m_open(interp, path, args, ret_ty, callee):
+            return ok(ret_ty, IntV(1, "u32"))
+
+        def m_read(interp, path, args, ret_ty, callee):
+            if "MilliTimestamp" in callee:
+                return ok(ret_ty, StructV("ProposerMilliTimestampSubstate", [IntV(lit(self._d["M0"]), "i64")]))
+            return ok(ret_ty, StructV("ProposerMinuteTimestampSubstate", [IntV(lit(self._d["m0"]), "i32")]))
+
+        def m_write(interp, path, args, ret_ty, callee):
+            v = _models.deref(interp, path, args[2])
+            key = "milli" if "MilliTimestamp" in callee else "minute"
+            path.frames["job"][key] = v
+            path.frames["job"][key + "_written"] = _BoolV(True)
+            return ok(ret_ty, _UnitV())
+
+        def m_close(interp, path, args, ret_ty, callee):
+            return ok(ret_ty, _UnitV())
+
+        def m_ident(interp, path, args, ret_ty, callee):
+            return args[0]
+        return [(_re.compile(r"^<ConsensusManagerField as Into<u8>>::into$"), m_into_u8),
+                (_re.compile(r"SystemActorApi<RuntimeError>>::actor_open_field$"), m_open),
+                (_re.compile(r"SystemFieldApi<RuntimeError>>::field_read_typed::<"), m_read),
+                (_re.compile(r"SystemFieldApi<RuntimeError>>::field_write_typed::<"), m_write),
+                (_re.compile(r"SystemFieldApi<RuntimeError>>::field_close$"), m_close),
+                (_re.compile(r"FieldPayload::fully_update_and_into_latest_version$|FieldPayload>::from_content_source::<"), m_ident)]
+
+    def locate(self, prog):
+        return find_function(prog, "consensus_manager/consensus_manager.rs", "check_non_decreasing_and_update_timestamps", nparams=2)
+
+    def inputs(self):
+        d = {k: z3.Int(k) for k in ("M0", "m0", "t")}
+        return d, [d["M0"] >= -(1 << 63), d["M0"] < (1 << 63), d["m0"] >= -(1 << 31), d["m0"] < (1 << 31),
+                   d["t"] >= -(1 << 63), d["t"] < (1 << 63)]
+
+    def setup_path(self, path, inp):
+        self._d = {k: lit(v) for k, v in inp.items()}
+        path.frames["job"] = {"api": StructV("Api", []),
+                              "milli": StructV("ProposerMilliTimestampSubstate", [IntV(self._d["M0"], "i64")]),
+                              "minute": StructV("ProposerMinuteTimestampSubstate", [IntV(self._d["m0"], "i32")]),
+                              "milli_written": _BoolV(False), "minute_written": _BoolV(False)}
+
+    def args(self, inp):
+        return [IntV(lit(inp["t"]), "i64"), _RefV("&mut Y", "job", "api", ())]
+
+    def extract_outcome(self, o):
+        fr = o.path.frames["job"]
+        return {"ok": o.value.discr == 0, "M1": fr["milli"].fields[0].term, "m1": fr["minute"].fields[0].term,
+                "writes": z3.If(fr["milli_written"].term, 1, 0) + z3.If(fr["minute_written"].term, 1, 0)}
+
+    def native(self, nat, vals):
+        t = nat.call("cm_time", vals["M0"], vals["m0"], vals["t"]).split()
+        if t[0] == "panic":
+            return {"panic": True, "msg": " ".join(t[1:])}
+        return {"panic": False, "ok": t[0] == "ok", "M1": int(t[1]), "m1": int(t[2]), "writes": int(t[3])}
+
+    def post(self, inp, res):
+        d = {k: lit(v) for k, v in inp.items()}
+        r = {k: lit(v) for k, v in res.items() if not isinstance(v, str)}
+        q = tdiv(d["t"], 60000)
+        fits = z3.And(q >= -(1 << 31), q < (1 << 31))
+        return [("rejected exactly when time would move backwards or the minute count does not fit",
+                 r["ok"] == z3.And(d["t"] >= d["M0"], fits)),
+                ("the stored millisecond timestamp never decreases", r["M1"] >= d["M0"]),
+                ("the stored minute never decreases", r["m1"] >= d["m0"]),
+                ("on success the millisecond timestamp is the proposed time and the minute is max(old, proposed minute)",
+                 z3.Implies(r["ok"], z3.And(r["M1"] == d["t"], r["m1"] == z3.If(q > d["m0"], q, d["m0"])))),
+                ("a time below the stored one writes nothing", z3.Implies(d["t"] < d["M0"], z3.And(r["writes"] == 0, r["M1"] == d["M0"],
+                                                                                                   r["m1"] == d["m0"])))]
+
+    def covers(self, inp, res):
+        d = {k: lit(v) for k, v in inp.items()}
+        ok = lit(res["ok"])
+        return [("ok forward", z3.And(ok, d["t"] > d["M0"])), ("ok same time", z3.And(ok, d["t"] == d["M0"])),
+                ("rejected backwards", z3.And(z3.Not(ok), d["t"] < d["M0"])), ("minute advanced", z3.And(ok, lit(res["m1"]) > d["m0"]))]
+
+    def vectors(self, rng):
+        out = []
+        for _ in range(40):
+            M0 = rng.choice([0, 1000, 1700000000000, -5000, rng.randrange(-(1 << 40), 1 << 45)])
+            out.append({"M0": M0, "m0": rng.choice([0, M0 // 60000 if -(1 << 31) <= M0 // 60000 < (1 << 31) else 0, 5, -3, 28000000]),
+                        "t": rng.choice([M0, M0 - 1, M0 + 1, M0 + 60000, M0 + 120001, 0, (1 << 62), rng.randrange(-(1 << 40), 1 << 45)])})
+        return out
+
+
+JOBS["C44"].append(TimestampUpdate())
